@@ -50,6 +50,12 @@ func init() {
 		QuickRuns: 4000, ThoroughRuns: 400000, QuickWall: 75 * time.Second, ThoroughWall: 20 * time.Minute,
 		Rule: "one evaluation = one seeded simulated PASS run in which 1-4 streams are opened with hostile cluster/shard metadata (boundary list incl. 0, -1, 1023..1025, 2^20 +-1, the int32 overflow threshold 238609294, 2^31-1, -2^31, values >= 2^32, non-numeric, missing, plus random huge and negative values; the range between 2^21 and the overflow threshold is excluded because it only costs memory), concurrently, followed by 1-2 well-formed streams; default and LCM modes; the stream observer's printer runs. distinct = distinct trace fingerprint; non-trivial = all hostile opens were issued and at least one message was relayed",
 		Real: passReal, Stub: passStub, Assume: commonAssume})
+	addSpec(&propSpec{ID: "C09", Profiles: []string{"C09"}, Level: "exploration",
+		QuickRuns: 3000, ThoroughRuns: 300000, QuickWall: 75 * time.Second, ThoroughWall: 20 * time.Minute,
+		Rule:   "one evaluation = one seeded simulated GOSSIP run: 2-3 proxy instances, 1-2 shards per cluster; the scheduler orders instance start/join, shard claims and releases (>= 1 ms of virtual time apart per shard), delivery of every reliable announcement, join/leave/update event and push/pull state merge (any order, any delay, optional duplication, optional instance leave); closing phase delivers everything outstanding, merges all pairs twice, lets the reconcile timers fire, then checks ownership tables and issues delivery probes from every instance for every shard. distinct = distinct trace fingerprint; non-trivial = at least one claim and one probe",
+		Real:   []string{"proxy.shardManagerImpl incl. shardDelegate.NotifyMsg/MergeRemoteState/LocalState/NodeMeta and shardEventDelegate.NotifyLeave", "proxy.intraProxyManager (reconcile loop, sendAck, sendReplicationMessages)", "proxy.intraProxyStreamSender/Receiver", "routing-mode stream handler serving intra-proxy streams (streamIntraProxyRouting)"},
+		Stub:   []string{"hashicorp/memberlist: vsim/fakeml (same API subset; delivery of user messages, state merges and membership events are simulator steps; no failure detector)", "intra-proxy gRPC link: vsim/simio streams terminating in the peer instance's real handler (seam in intra_proxy_router.go)", "local cluster streams: harness registers delivery/ack channels and ownership through the ShardManager interface as proxyStreamSender/Receiver do"},
+		Assume: commonAssume})
 	addSpec(&propSpec{ID: "C08", Profiles: []string{"C08", "C04"}, Level: "exploration",
 		QuickRuns: 1500, ThoroughRuns: 150000, QuickWall: 75 * time.Second, ThoroughWall: 20 * time.Minute,
 		Rule: "one evaluation = one seeded simulated ROUTE run with stream churn (successor incarnations opening while predecessors tear down); oracles: no unrecovered panic, functional probes on the newest incarnation, empty registries and no live task after all streams ended",
